@@ -3403,6 +3403,10 @@ class Session(object):
                     # the session was shut down while the pool was being created
                     new_pool.shutdown()
                     return False
+                if self.cluster.metadata.get_host(host.endpoint) is not host:
+                    # the host was removed from the cluster while the pool was being created
+                    new_pool.shutdown()
+                    return False
                 self._pools[host] = new_pool
 
             log.debug("Added pool for host %s to session", host)
